@@ -165,10 +165,21 @@ class MacroProcessor:
         """
         max_iterations = 100  # Prevent infinite loops
         iteration = 0
+        # A macro that (directly or indirectly) expands to itself never finishes, and
+        # with two self-references it doubles the text on every pass: bound the size too.
+        max_size = 64 * len(content) + 1_000_000
 
         while "${" in content and iteration < max_iterations:
             iteration += 1
-            content = self._expand_once(content)
+            expanded = self._expand_once(content)
+            if expanded == content:
+                break  # only unknown macros are left - they are reported by the parser
+            content = expanded
+            if len(content) > max_size:
+                raise ValueError("macro expansion does not terminate (recursive macro definition?)")
+
+        if iteration >= max_iterations and any(f"${{{name}" in content for name in self._macros):
+            raise ValueError("macro expansion does not terminate (recursive macro definition?)")
 
         return content
 
